@@ -66,6 +66,7 @@ type stmt struct {
 	used []string
 	// a false branch index, -1 if all branches are true
 	falseBranch int
+	top         proof.Predicate // the top-level Or (nil when the statement is a single branch)
 }
 
 func rscalar(g kyber.Group, t *core.Tape, label string) kyber.Scalar {
@@ -98,6 +99,7 @@ func genStmt(g kyber.Group, t *core.Tape) *stmt {
 		nAnd := 1 + t.Intn("pred", 4)
 		truth := b == st.proven || t.Bool("pred", 500)
 		var reps []proof.Predicate
+		repUsed := map[int][]string{}
 		for a := 0; a < nAnd; a++ {
 			nT := 1 + t.Intn("pred", 3)
 			pname := fmt.Sprintf("P%d_%d", b, a)
@@ -109,7 +111,7 @@ func genStmt(g kyber.Group, t *core.Tape) *stmt {
 				args = append(args, xs, bs)
 				acc = g.Point().Add(acc, g.Point().Mul(st.sval[xs], st.pval[bs]))
 				if b == st.proven {
-					usedSet[xs] = true
+					repUsed[a] = append(repUsed[a], xs)
 				}
 			}
 			if !truth && a == 0 {
@@ -121,18 +123,41 @@ func genStmt(g kyber.Group, t *core.Tape) *stmt {
 			st.pval[pname] = acc
 			reps = append(reps, proof.Rep(pname, args...))
 		}
-		if len(reps) == 1 && t.Bool("pred", 500) {
+		nested := false
+		switch {
+		case st.nOr >= 2 && len(reps) >= 2 && truth && t.Bool("pred", 250):
+			// a nested Or (all Ors above all Ands, as the library allows): its first alternative is the true one
+			inner := proof.Or(reps...)
+			branches = append(branches, inner)
+			if b == st.proven {
+				st.choice[inner] = 0
+				for _, x := range repUsed[0] { // only the proven alternative's secrets matter
+					usedSet[x] = true
+				}
+			}
+			st.shape += fmt.Sprintf("[or%d]", nAnd)
+			nested = true
+		case len(reps) == 1 && t.Bool("pred", 500):
 			branches = append(branches, reps[0])
-		} else {
+			st.shape += "[rep]"
+		default:
 			branches = append(branches, proof.And(reps...))
+			st.shape += fmt.Sprintf("[and%d]", nAnd)
 		}
-		st.shape += fmt.Sprintf("[and%d]", nAnd)
+		if b == st.proven && !nested {
+			for _, xs := range repUsed {
+				for _, x := range xs {
+					usedSet[x] = true
+				}
+			}
+		}
 	}
 	if st.nOr == 1 && t.Bool("pred", 600) {
 		st.pred = branches[0]
 	} else {
 		or := proof.Or(branches...)
 		st.pred = or
+		st.top = or
 		st.choice[or] = st.proven
 	}
 	for _, k := range core.SortedKeys(usedSet) {
@@ -245,13 +270,14 @@ func runHash(t *core.Tape, info *core.RunInfo) *core.Violation {
 		if st.falseBranch < 0 || st.nOr < 2 {
 			return nil
 		}
-		ch := map[proof.Predicate]int{}
-		for p := range st.choice {
-			ch[p] = st.falseBranch
-		}
-		if len(ch) == 0 {
+		if st.top == nil {
 			return nil
 		}
+		ch := map[proof.Predicate]int{}
+		for p, c := range st.choice {
+			ch[p] = c
+		}
+		ch[st.top] = st.falseBranch
 		info.ByzFired("claims-false-branch")
 		var bad []byte
 		var perr error
@@ -569,7 +595,7 @@ func runClique(t *core.Tape, info *core.RunInfo) *core.Violation {
 	}
 	fault, victim, fround, onlyFor := "none", -1, 0, -1
 	if !honestClass {
-		fault = []string{"none", "falsified-secret", "drop-out", "truncate-below-commitment", "truncate-proof", "flip-proof-byte", "flip-commitment-byte", "replay-slot-of-other-session", "wrong-key-opening", "claims-false-branch"}[t.Intn("fault", 10)]
+		fault = []string{"none", "falsified-secret", "drop-out", "truncate-below-commitment", "truncate-proof", "flip-proof-byte", "flip-commitment-byte", "replay-slot-of-other-session", "wrong-key-opening", "claims-false-branch", "rushing-key-forger"}[t.Intn("fault", 11)]
 		victim = t.Intn("fault", k)
 		// every predicate is a 3-move Sigma protocol, so a clique session has exactly three rounds:
 		// 0 = randomness commitment + prover commitments, 1 = opened random keys, 2 = commitment + responses.
@@ -613,15 +639,68 @@ func runClique(t *core.Tape, info *core.RunInfo) *core.Violation {
 	}
 	if fault == "claims-false-branch" {
 		v := parts[victim]
-		if v.st.falseBranch < 0 || len(v.st.choice) == 0 {
+		if v.st.falseBranch < 0 || v.st.top == nil {
 			fault = "none"
 		} else {
-			for p := range v.st.choice {
-				v.st.choice[p] = v.st.falseBranch
-			}
+			v.st.choice[v.st.top] = v.st.falseBranch
 			v.byz = fault
 			info.ByzFired(fault)
 		}
+	}
+	// A rushing forger: it does not know the witness of its statement X = x*B. It commits to a random key,
+	// waits for the honest keys of the challenge round, and opens the key that steers the common challenge
+	// to the value its pre-computed first message answers. The opened key cannot match its commitment.
+	var forge struct {
+		on      bool
+		target  []byte
+		V, X    kyber.Point
+		r       kyber.Scalar
+		fakeKey []byte
+	}
+	if fault == "rushing-key-forger" {
+		forge.on = true
+		forge.target = t.Bytes("fault.val", keySize)
+		forge.fakeKey = t.Bytes("fault.val", keySize)
+		forge.X = suite.Point().Mul(rscalar(suite, t, "fault.val"), nil)
+		forge.r = rscalar(suite, t, "fault.val")
+		c := suite.Scalar()
+		_ = suite.Read(suite.XOF(forge.target), c)
+		forge.V = suite.Point().Add(suite.Point().Mul(forge.r, nil), suite.Point().Mul(c, forge.X))
+		st := &stmt{pred: proof.Rep("X", "x", "B"), pval: map[string]kyber.Point{"X": forge.X, "B": suite.Point().Base()}, sval: map[string]kyber.Scalar{}, choice: map[proof.Predicate]int{}, shape: "forged-rep"}
+		parts[victim].st = st
+		parts[victim].byz = fault
+		for i, p := range parts {
+			if i != victim {
+				p.verifies[victim] = true // everybody checks the newcomer
+			}
+		}
+		info.ByzFired(fault)
+	}
+	forgerMsg := func(round int, cur [][]byte) []byte {
+		var b bytes.Buffer
+		switch round {
+		case 0:
+			c := make([]byte, keySize)
+			_, _ = suite.XOF(forge.fakeKey).Read(c)
+			b.Write(c)
+			_ = suite.Write(&b, forge.V)
+		case 1:
+			key := kit.CopyBytes(forge.target)
+			for i, m := range cur {
+				if i != victim && len(m) >= keySize {
+					for j := 0; j < keySize; j++ {
+						key[j] ^= m[j]
+					}
+				}
+			}
+			b.Write(key)
+		case 2:
+			b.Write(t.Bytes("fault.val", keySize))
+			_ = suite.Write(&b, forge.r)
+		default:
+			return nil
+		}
+		return b.Bytes()
 	}
 	var oldSlot []byte // the victim's first-round slot from an earlier session
 	var hang string
@@ -680,6 +759,10 @@ func runClique(t *core.Tape, info *core.RunInfo) *core.Violation {
 		cur := make([][]byte, k)
 		active := make([]bool, k)
 		for _, p := range parts {
+			if forge.on && p.id == victim {
+				p.finished = true // simulated by the leader, not a task
+				continue
+			}
 			start(p)
 			e, ok := next(p)
 			if !ok {
@@ -704,6 +787,9 @@ func runClique(t *core.Tape, info *core.RunInfo) *core.Violation {
 			}
 			if round == 0 && fault == "replay-slot-of-other-session" && victim >= 0 {
 				oldSlot = nil // filled below from a scratch message of the right shape
+			}
+			if forge.on {
+				cur[victim] = forgerMsg(round, cur)
 			}
 			nxt := make([][]byte, k)
 			nact := make([]bool, k)
@@ -802,6 +888,9 @@ func runClique(t *core.Tape, info *core.RunInfo) *core.Violation {
 		return viol("totality", "clique/hang/"+fault, "%s (fault %s on participant %d, round %d)", hang, fault, victim, fround)
 	}
 	effective := fault != "none" && (fired || parts[maxInt(victim, 0)].byz != "")
+	if forge.on {
+		fired = true
+	}
 	for i, p := range parts {
 		if p.dropped || !p.finished {
 			continue
